@@ -44,6 +44,8 @@ template <class T> struct Job {
     int lib[4];                   // what the library's own public constants say (compared with Spec::pred)
     int nlib;
     const char* libname[4];
+    bool strict_model = false;    // a disagreement between Spec::pred and lib[] is a judged failure (C15: the variant coverage claim
+                                  // rests on it) or only a recorded route + note (C03: the prediction is route reporting)
 };
 
 // ---- observed result type -> run-time description -------------------------------------------------------------
@@ -283,9 +285,11 @@ template <class T> struct Driver {
         for (int k = 0; k < j.nlib; ++k) {
             fx.route(std::string(j.libname[k]) + "=" + std::to_string(j.lib[k]));
             if (s.pred[k] != j.lib[k]) {
-                fx.pt("scheme=model"); fx.route("model.mismatch");
-                fx.verdict(false, 2, true, std::string("harness: enumerator predicted ") + j.libname[k] + "=" + std::to_string(s.pred[k]) +
-                           " but the library's constant is " + std::to_string(j.lib[k]));
+                const std::string msg = std::string("enumerator predicted ") + j.libname[k] + "=" + std::to_string(s.pred[k]) +
+                                        " but the library's constant is " + std::to_string(j.lib[k]);
+                fx.route("model.mismatch");
+                if (j.strict_model) { fx.pt("scheme=model"); fx.verdict(false, 2, true, "harness: " + msg); }
+                else fx.note(msg);
             }
         }
         fill_addr_all(); fx.pt("scheme=addr"); eval_exact("addr");
